@@ -25,7 +25,9 @@ Qed.
 
 Lemma R_init U P : R U P rinit minit.
 Proof.
-  constructor; try reflexivity.
+  constructor.
+  - reflexivity.
+  - reflexivity.
   - intros ch _. cbn. split; reflexivity.
   - intros ch s H. discriminate H.
   - intros ch k _. unfold cache_rel. cbn. reflexivity.
